@@ -193,6 +193,27 @@ def planted(d, n, p, variant, kind='strict'):
     return inst
 
 
+def arrow_lp(n, variant=0):
+    """Box -1 <= x <= 1 plus 'arrow' rows x_0 + x_i <= 1.5 and two dense equality rows: G'DG has an arrow pattern
+    (CHOLMOD permutes it), the LP is strictly feasible and bounded.  Used for mixed dense/sparse presentations."""
+    rows = []
+    for i in range(n):
+        rows.append([1.0 if j == i else 0.0 for j in range(n)])
+    for i in range(n):
+        rows.append([-1.0 if j == i else 0.0 for j in range(n)])
+    for i in range(1, n):
+        rows.append([1.0 if j in (0, i) else 0.0 for j in range(n)])
+    m = len(rows)
+    G = [[rows[i][j] for i in range(m)] for j in range(n)]
+    h = [1.0] * (2 * n) + [1.5] * (n - 1)
+    cpal = [-3.0, 1.0, -2.0, 0.5, -1.0, 2.0, -0.5, 1.5]
+    c = [cpal[(j + variant) % 8] for j in range(n)]
+    A = [[1.0] * n, [[1.0, -2.0, 3.0, -1.0, 0.5, 2.0, -1.5, 1.0][(j + variant) % 8] for j in range(n)]]
+    xh = [0.1 * ((j % 3) - 1) for j in range(n)]
+    b = [sum(A[i][j] * xh[j] for j in range(n)) for i in range(2)]
+    return {'c': c, 'G': G, 'h': h, 'dims': {'l': m, 'q': [], 's': []}, 'A': A, 'b': b, 'truth': 'optimal'}
+
+
 def lp_family(n, m, pal, fixed=None):
     """All (c, G, h) with entries in pal, c != 0; G as list of columns.  `fixed`: optional dict restricting
     some coordinates (used to shard the family into cases)."""
@@ -222,8 +243,11 @@ def build_args(inst, cfg):
         h = put_junk(h, d, cfg['junk'] + 1.0)
     G = cvx.from_cols(Gc, N)
     A = matrix([v for j in range(n) for v in [inst['A'][i][j] for i in range(p)]], (p, n), 'd') if p else matrix(0.0, (0, n))
-    if cfg.get('storage') == 'sparse':
+    stG = cfg.get('storageG', cfg.get('storage'))
+    stA = cfg.get('storageA', cfg.get('storage'))
+    if stG == 'sparse':
         G = sparse(G)
+    if stA == 'sparse':
         A = sparse(A) if p else spmatrix([], [], [], (0, n), 'd')
     return {'c': cvx.dmat(inst['c']), 'G': G, 'h': cvx.dmat(h), 'A': A, 'b': cvx.dmat(inst['b']),
             'dims': {'l': d['l'], 'q': list(d['q']), 's': list(d['s'])}, 'Gc': Gc, 'hl': h}
